@@ -424,6 +424,31 @@ def explore_pyapi(case):
                     break
         except Exception as ex:
             res.fail(site=config, clause="python_api_reused_elements:no_exception", cls=type(ex).__name__, detail=dict(error=str(ex)[:200]), sub="pyapi", case=case)
+    # successive samples that agree to six or more digits (a gyro signal that changes slowly): every step integrates ITS sample.  The
+    # reference distinguishes them (the attitude after the step differs by |dw| dt, far above the tolerance).
+    for config, G in (("strapdown_quat", lib.lie.SE23Quat), ("exp_mixed_mrp", lib.lie.SE23Mrp)):
+        x0 = initial_states(config, seed)[1]
+        w0, a0 = W_MENU[2] * 1.0, A_MENU[2] * 1.0
+        if maxabs(w0) == 0:
+            w0 = np.array([0.7, -1.9, 2.3])
+        g, dt = 9.8, 0.5
+        for rel in (3e-7, -2e-8, 4e-6):
+            samples = [(a0, w0), (a0 * (1 + rel), w0 * (1 + rel)), (a0, w0 * (1 - 2 * rel))]
+            res.count("evaluations")
+            res.count("transitions", len(samples))
+            res.nontrivial.add(hash((config, "slow", rel)))
+            r = lib.lie.se23.elem(ca.DM([0, 0, 0, 0, 0, -g, 0, 0, 0.0]))
+            Bm = ca.sparsify(ca.SX([[0, 1], [0, 0]]))
+            try:
+                # each sample applied to the SAME initial state, so the three results are comparable one to one with the reference
+                for k, (a, w) in enumerate(samples):
+                    X = G.exp_mixed(G.elem(ca.DM(x0)), lib.lie.se23.elem(ca.DM(np.concatenate([np.zeros(3), a, w]))) * dt, r * dt, Bm * dt)
+                    p, v, R = ref_step(*split(config, x0), a, w, g, dt)
+                    x1 = numapi.ev(X.param).reshape(-1)
+                    if not judge(res, config, x1, p, v, R, 1.0 + dt, "python_api_nearly_equal_samples", dict(x0=x0, sample=k, a=a, w=w, rel=rel, cls="sample%d" % k), case):
+                        break
+            except Exception as ex:
+                res.fail(site=config, clause="python_api_reused_elements:no_exception", cls=type(ex).__name__, detail=dict(error=str(ex)[:200]), sub="pyapi", case=case)
     res.samples.append(dict(pyapi=True))
     return res
 
